@@ -12,11 +12,11 @@ theorem RowSim.erase (r : Row) : RowSim r r.erase := by
   refine ⟨rfl, ?_⟩
   simp [Row.erase, List.map_map, Function.comp_def]
 
-theorem any_fst (l : List (String × Text)) (f : String) :
+theorem any_fst (l : List (Text × Text)) (f : Text) :
     l.any (fun p => p.1 == f) = (l.map Prod.fst).any (fun x => x == f) := by
   simp [List.any_map, Function.comp_def]
 
-theorem Row.has_sim {r1 r2 : Row} (h : RowSim r1 r2) (f : String) : r1.has f = r2.has f := by
+theorem Row.has_sim {r1 r2 : Row} (h : RowSim r1 r2) (f : Text) : r1.has f = r2.has f := by
   unfold Row.has
   rw [any_fst r1.values, any_fst r2.values, h.1, h.2]
 
@@ -50,7 +50,7 @@ theorem renderInner_sim {body : List Inner} (hb : body.all Inner.vf = true) {e1 
   intro i hmem
   exact Inner.render_sim (List.all_eq_true.mp hb i hmem) he hr
 
-theorem getMap_erase (e : Env) (m : String) : getMap e.erase m = (getMap e m).map Row.erase := by
+theorem getMap_erase (e : Env) (m : Text) : getMap e.erase m = (getMap e m).map Row.erase := by
   unfold getMap Env.erase
   simp only [List.find?_map, Function.comp_def]
   cases h : List.find? (fun p => p.1 == m) e.maps <;> simp
@@ -70,12 +70,12 @@ theorem items_erase (e : Env) (src : MapSrc) (body : List Inner) (hb : body.all 
   · apply List.map_congr_left
     intro kv _
     simp only [Function.comp_def, List.find?_map]
-    have hp : ((fun r : Row => get r.idents "k" == kv.1) ∘ Row.erase) =
-        (fun r : Row => get r.idents "k" == kv.1) := by
+    have hp : ((fun r : Row => get r.idents t!"k" == kv.1) ∘ Row.erase) =
+        (fun r : Row => get r.idents t!"k" == kv.1) := by
       funext r; simp [Row.erase]
     simp only [Function.comp_def] at hp
     rw [hp]
-    cases List.find? (fun r : Row => get r.idents "k" == kv.1) (argRows e src) with
+    cases List.find? (fun r : Row => get r.idents t!"k" == kv.1) (argRows e src) with
     | none =>
       simp only [Option.map_none]
       exact renderInner_sim hb (erase_idents e).symm ⟨rfl, rfl⟩
@@ -83,8 +83,8 @@ theorem items_erase (e : Env) (src : MapSrc) (body : List Inner) (hb : body.all 
       simp only [Option.map_some]
       exact renderInner_sim hb (erase_idents e).symm (RowSim.erase r)
   · rw [List.filter_map, List.map_map]
-    have hq : ((fun r : Row => !(src.fixed.any (fun kv => kv.1 == get r.idents "k"))) ∘ Row.erase) =
-        (fun r : Row => !(src.fixed.any (fun kv => kv.1 == get r.idents "k"))) := by
+    have hq : ((fun r : Row => !(src.fixed.any (fun kv => kv.1 == get r.idents t!"k"))) ∘ Row.erase) =
+        (fun r : Row => !(src.fixed.any (fun kv => kv.1 == get r.idents t!"k"))) := by
       funext r; simp [Row.erase]
     rw [hq]
     apply List.map_congr_left
